@@ -113,10 +113,15 @@ def strings_part(chk, n, seed, name="c18"):
         jobs.append({"id": "s%d" % i, "src": src, "observe": [b["n"] for b in c["binds"]], "limits": {"calls": 500000}})
     res = vf.run_jobs(jobs, name)
     chk.count(len(jobs))
+    recs = []
     for j, c in zip(jobs, cases):
         o = res[j["id"]]
         oc = vf.job_outcome(o)
         chk.nontrivial(j["src"])
+        for b in (c["binds"] if oc == "ok" else []):
+            d = o["values"].get(b["n"]) or {}
+            if d.get("t") == "str":
+                recs.append(str_record(d, _job=j["id"], _bind=b["n"]))
         if oc != "ok":
             chk.violation("string program: %s %s" % (oc, str(o.get("compile", {}).get("msg") or o.get("inst"))[:300]),
                           {"kind": "str", "source": j["src"], "observed": oc})
@@ -142,6 +147,12 @@ def strings_part(chk, n, seed, name="c18"):
                               {"kind": "str", "source": j["src"], "binding": b["n"], "expected": exp, "observed": got},
                               finding_key="str:" + b["term"].get("f", "lit"))
                 break
+    # every string value of every walk, through the representation acceptor
+    for t in vf.accept_records(chk, "XrStrRepr", recs, name + "-strrepr"):
+        src = [j["src"] for j in jobs if j["id"] == t["_job"]][0]
+        chk.violation("str value %s is ill-formed: %s" % (t["_bind"], json.dumps({k: v for k, v in t.items() if not k.startswith("_")})),
+                      {"kind": "str-repr", "source": src, "binding": t["_bind"], "record": {k: v for k, v in t.items() if not k.startswith("_")}},
+                      finding_key="str:repr")
     return jobs
 
 
